@@ -1,9 +1,9 @@
 package main
 
 import (
-	"sort"
 	"fmt"
 	"math/rand"
+	"sort"
 )
 
 func logSpec(what string, kinds []string, maxStages, maxRecs int, nontrivial func(LogCase, Sexp) bool, prefix string) *Spec[LogCase] {
